@@ -21,3 +21,16 @@ Definition sandbox_static_cast (a : abi) (vol : bool) (to from : ikind) (v : Z) 
 Definition sandbox_ptr_cast (vol : bool) (s : region) (x : Z) : Z :=
   if vol then unsandbox s x      (* x is the representation stored in the pointer cell *)
   else x.
+
+(* ---------- the casts applied to a CELL of sandbox memory (tainted_volatile operand), from the
+   bytes: sandbox_static_cast<to> of a dereferenced pointer is "load the cell (C07), static_cast, wrap"; the pointer casts
+   are "load the pointer cell (C04/C07), reinterpret" ---------- *)
+Definition sandbox_static_cast_mem (a : abi) (to from : ikind) (addr : Z) (m : mem) : option (res Z) :=
+  match load_int a from addr m with Some r => Some (x <- r ;; Ok (wrap to x)) | None => None end.
+Definition sandbox_ptr_cast_mem (w : Z) (s : region) (addr : Z) (m : mem) : Z :=
+  sandbox_ptr_cast true s (load_bits w addr m).
+
+(* an opaque value handed to a sandbox function / returned from a callback: what crosses the
+   boundary is computed from the opaque object's bytes *)
+Definition opaque_to_sbx (a : abi) (k : ikind) (img : list Z) : option (res Z) :=
+  to_sbx a k (decode k (from_opaque_img img)).
